@@ -197,3 +197,23 @@ func TruthfulReports(v *VT) {
 		return copy(buf, []byte("\x1b["+strconv.Itoa(row)+";"+strconv.Itoa(col)+"R")), nil
 	}
 }
+
+// Capture collects, as plain text, everything the library writes to the terminal.
+type Capture struct{ buf string }
+
+func CaptureOutput() *Capture {
+	c := &Capture{}
+	if Symbolic() {
+		StdoutHook = func(fd int, s string) { c.buf += s }
+	}
+	return c
+}
+
+// Text returns the output produced so far.
+func (c *Capture) Text() string {
+	if !Symbolic() {
+		nativeDrain()
+		return NativeOutput()
+	}
+	return c.buf
+}
